@@ -30,7 +30,7 @@ from .core import BadSpec
 # ---------------------------------------------------------------------------
 _small = st.integers(0, 30)
 ORD = ["nop", "nop2", "nop3", "xor", "push", "pop", "mark", "lea", "load"]
-TERM = ["jmp", "jmp32", "je", "call", "ijmp", "icall", "ret"]
+TERM = ["jmp", "jmp32", "je", "je", "call", "call", "call", "ijmp", "icall", "ret", "ret"]
 
 
 def _ord_names(isa):
@@ -40,7 +40,7 @@ def _ord_names(isa):
 
 def _term_names(isa):
     tab = I.table(isa)
-    return [n for n in TERM if n in tab]
+    return [n for n in TERM if n in tab]  # (duplicates = weights)
 
 
 def insn_st(isa, names):
@@ -60,7 +60,7 @@ def block_st(isa, cfg, data_ok=True, only_data=False):
         "term": (st.one_of(st.none(), insn_st(isa, terms)) if terms else st.none()),
         "nl": st.sampled_from([0, 1, 1, 2, 3]),
         "ne": st.sampled_from([0, 0, 1, 2]),
-        "fn": st.one_of(st.none(), st.integers(0, 3)),
+        "fn": st.sampled_from([None, 0, 0, 0, 1, 1, 2, 3]),
         "entry": st.booleans(),
         "notes": st.lists(st.integers(0, 40), max_size=4),
     })
@@ -95,10 +95,11 @@ def patch_st(isa, cfg, data_ok=True):
 
 def edit_st(isa, cfg):
     p = patch_st(isa, cfg)
-    ins = st.fixed_dictionaries({"op": st.just("insert"), "b": _small, "i": st.sampled_from([0, 0, 1, 2, 3, 99]), "patch": p})
-    rep = st.fixed_dictionaries({"op": st.just("replace"), "b": _small, "i": st.integers(0, 4),
+    cb = st.sampled_from([True, True, True, False])
+    ins = st.fixed_dictionaries({"op": st.just("insert"), "cb": cb, "b": _small, "i": st.sampled_from([0, 0, 1, 2, 3, 99]), "patch": p})
+    rep = st.fixed_dictionaries({"op": st.just("replace"), "cb": cb, "b": _small, "i": st.integers(0, 4),
                                  "n": st.sampled_from([1, 1, 2, 99]), "patch": p})
-    dele = st.fixed_dictionaries({"op": st.just("delete"), "b": _small, "i": st.sampled_from([0, 0, 0, 1, 2]),
+    dele = st.fixed_dictionaries({"op": st.just("delete"), "cb": cb, "b": _small, "i": st.sampled_from([0, 0, 0, 1, 2]),
                                   "n": st.sampled_from([0, 1, 1, 2, 99, 99, 99]), "proxy": st.booleans()})
     return st.one_of(ins, ins, rep, dele, dele)
 
@@ -137,7 +138,7 @@ def case_st(tier, pairs=None, cfg=True, max_edits=None, min_edits=1, scopes=Fals
         return st.fixed_dictionaries({
             "isa": st.just(isa), "fmt": st.just(fmt),
             "sections": secs,
-            "funcs": st.booleans(),
+            "funcs": st.sampled_from([True, True, True, False]),
             "entry": st.one_of(st.none(), _small),
             "edits": st.lists((st.one_of(edit_st(isa, use_cfg), edit_st(isa, use_cfg), scope_edit_st(isa))
                                if scopes else edit_st(isa, use_cfg)), min_size=min_edits, max_size=ne),
@@ -250,13 +251,19 @@ class Case:
         # function's name as an extra label
         self.funcs: Dict[str, List[int]] = {}
         self.entries: Dict[str, List[int]] = {}
+        self.func_symname: Dict[str, str] = {}
+        main_k = spec.get("main")
         for g, (si, rb) in enumerate(raw_blocks):
             names, ends, func = lab[g]
             if func is not None:
                 first = func not in self.funcs
                 self.funcs.setdefault(func, []).append(g)
                 if first:
-                    names.insert(0, func)
+                    symname = func
+                    if main_k is not None and len(self.funcs) - 1 == main_k:
+                        symname = "main"
+                    self.func_symname[func] = symname
+                    names.insert(0, symname)
                     self.entries[func] = [g]
                 elif rb.get("entry") and g % 3 == 0:
                     self.entries[func].append(g)
@@ -338,6 +345,20 @@ class Case:
         self.entry_block = codeblocks[ent % len(codeblocks)] if (ent is not None and codeblocks) else None
         self._norm_edits(spec.get("edits", []), allow_after_full_delete)
 
+    def _raw_block(self, e):
+        if e.get("op") == "scope":
+            return -1
+        b = e.get("b", 0) % len(self.blocks)
+        if e.get("cb"):
+            codeb = [bb.gidx for bb in self.blocks if bb.code]
+            if codeb:
+                b = codeb[e["b"] % len(codeb)]
+        return b
+
+    def fname(self, f):
+        """name of the function's symbol (functionNames)"""
+        return self.func_symname.get(f, f)
+
     # -- helpers ---------------------------------------------------------
     def _unit_from_tpl(self, tpl, ri, for_patch, own_labels=()):
         u = Unit(I.encode(self.isa, tpl, ri.get("imm", 0)), tpl.kind)
@@ -397,6 +418,11 @@ class Case:
                     self.edits.append(ed)
                 continue
             b = e["b"] % len(self.blocks)
+            if e.get("cb"):
+                # bias towards code blocks
+                codeb = [bb.gidx for bb in self.blocks if bb.code]
+                if codeb:
+                    b = codeb[e["b"] % len(codeb)]
             blk = self.blocks[b]
             nu = len(blk.units)
             i = min(e.get("i", 0), nu) if e.get("i", 0) >= 0 else 0
@@ -431,7 +457,8 @@ class Case:
                 # block is ambiguous (is the block "wholly deleted"?): the
                 # flag is only kept when the deletion is the block's sole edit
                 ed.proxy = (bool(e.get("proxy")) and i == 0 and n == nu
-                            and not any((x.get("b", 0) % len(self.blocks)) == b for k2, x in enumerate(raw) if k2 != reg))
+                            and not any(e2.b == b for e2 in self.edits) and not any(
+                                self._raw_block(x) == b for k2, x in enumerate(raw) if k2 > reg))
             else:
                 ed.patch = e["patch"]
                 if not ed.patch.get("toks"):
@@ -681,7 +708,7 @@ def build(case: Case, *, cfi=None) -> Built:
             out.func_uuids[name] = u
             fb[u] = {out.blocks[g] for g in idxs}
             fe[u] = {out.blocks[g] for g in c.entries[name]}
-            fn[u] = out.symbols[name]
+            fn[u] = out.symbols[c.fname(name)]
         m.aux_data["functionBlocks"] = gtirb.AuxData(fb, "mapping<UUID,set<UUID>>")
         m.aux_data["functionEntries"] = gtirb.AuxData(fe, "mapping<UUID,set<UUID>>")
         m.aux_data["functionNames"] = gtirb.AuxData(fn, "mapping<UUID,UUID>")
